@@ -404,7 +404,17 @@ def recursive_case(case, acc, ctx):
                 for k in ("NCS_SUIT_SIGN_SCRIPT", "NCS_SUIT_KMS_SCRIPT"):
                     os.environ.pop(k, None)
                 os.environ.update(envx)
-                sut.sign_recursive(fi, fo, fc)
+                if case.get("object_twice"):
+                    # a release script keeps ONE configuration dictionary and signs with it more than once: the second run is judged
+                    try:
+                        sut.sign_recursive_object(fi, os.path.join(d, "first-run.suit"), cfg)
+                    except boot.HarnessError:
+                        raise
+                    except Exception:
+                        pass
+                    sut.sign_recursive_object(fi, fo, cfg)
+                else:
+                    sut.sign_recursive(fi, fo, fc)
             else:
                 ok, r = sut.cli_ok(["sign", "recursive", "--input-envelope", fi, "--output-envelope", fo, "--configuration", fc], d, env_extra=envx)
                 if not ok:
@@ -423,7 +433,7 @@ def recursive_case(case, acc, ctx):
         dp = depth_of(tree)
         omit = has(plan, lambda p: p["mode"].startswith("omit"))
         pres = any_presigned(tree)
-        classes = ["recursive", f"depth:{dp}", f"route:{route}", f"scripts:{scripts}"] + (["omit-node"] if omit else []) + (["presigned-node"] if pres else []) + ([f"negative:{why}"] if why else [])
+        classes = ["recursive", f"depth:{dp}", f"route:{route}", f"scripts:{scripts}"] + (["configuration-object-used-twice"] if case.get("object_twice") and route == "main" else []) + (["omit-node"] if omit else []) + (["presigned-node"] if pres else []) + ([f"negative:{why}"] if why else [])
         if has(plan, lambda p: p["mode"] == "omit-nokey"):
             classes.append("omit-without-key-fields")
         stats = {}
@@ -491,7 +501,7 @@ def run_shard(ctx, spec):
     from hypothesis import strategies as _st
 
     strat = tree_s(spec["depth"]).flatmap(lambda t: _st.tuples(cfg_s(t), _st.sampled_from(["config", "config", "config+decoy-env", "env"])).map(
-        lambda cs: {"tree": t, "cfg": cs[0][0], "plan": cs[0][1], "route": route, "scripts": cs[1]}))
+        lambda cs: {"tree": t, "cfg": cs[0][0], "plan": cs[0][1], "route": route, "scripts": cs[1], "object_twice": (t.get("seq", 0) + len(json.dumps(cs[0][0]))) % 4 == 0}))
     run_given(ctx, acc, "recursive", strat, lambda c, a: recursive_case(c, a, ctx), seed=ctx.seed * 1000 + spec["i"], n=n)
     return acc
 
@@ -512,7 +522,7 @@ def finalize(ctx, m, ev):
     c = m["counters"]
     ev["coverage"]["exhaustive_scope"] = "policy table (2 x 3 x 5 x 4 = 120 cases) enumerated completely; trees/configurations sampled"
     need = ["table", "omit-node", "omit-without-key-fields", "presigned-node", "depth:3", "route:cli", "negative:absent dependency",
-            "negative:dependency is not an envelope", "negative:already signed and action error", "distinct-keys:2", "scripts:env", "scripts:config+decoy-env", "key-file:der/match", "key-file:der/mismatch", "earlier-longer-file-at-output-path"]
+            "negative:dependency is not an envelope", "negative:already signed and action error", "distinct-keys:2", "scripts:env", "scripts:config+decoy-env", "key-file:der/match", "key-file:der/mismatch", "earlier-longer-file-at-output-path", "configuration-object-used-twice"]
     for n in need:
         if not c.get(n):
             raise boot.HarnessError(f"interesting class {n} is empty")
